@@ -68,7 +68,17 @@ type Interp struct {
 	wraps   map[int][]Value
 }
 
-func (it *Interp) unsup(f string, a ...interface{}) { panic(unsupported{fmt.Sprintf(f, a...)}) }
+func (it *Interp) unsup(f string, a ...interface{}) {
+	msg := fmt.Sprintf(f, a...)
+	if it.sch != nil && it.sch.cur != nil && it.sch.cur.fr != nil {
+		var chain []string
+		for fr := it.sch.cur.fr; fr != nil && len(chain) < 6; fr = fr.caller {
+			chain = append(chain, fr.fn.String())
+		}
+		msg += " [in " + strings.Join(chain, " <- ") + "]"
+	}
+	panic(unsupported{msg})
+}
 
 func (it *Interp) assume(t string) {
 	it.pc = append(it.pc, t)
@@ -493,6 +503,9 @@ func (it *Interp) execBlock(fr *frame, b, prev *ssa.BasicBlock) (res blockResult
 			panic(r)
 		}
 	}()
+	if it.sch.cur != nil {
+		it.sch.cur.fr = fr
+	}
 	for _, ins := range b.Instrs {
 		it.steps++
 		if it.steps > it.cfg.StepLimit {
@@ -530,6 +543,9 @@ func (it *Interp) execBlock(fr *frame, b, prev *ssa.BasicBlock) (res blockResult
 			fr.env[x] = it.binop(x.Op, it.get(fr, x.X), it.get(fr, x.Y), x.X.Type())
 		case *ssa.Call:
 			fr.env[x] = it.doCall(fr, &x.Call)
+			if it.sch.cur != nil {
+				it.sch.cur.fr = fr
+			}
 		case *ssa.ChangeInterface:
 			fr.env[x] = it.get(fr, x.X)
 		case *ssa.ChangeType:
